@@ -1,5 +1,7 @@
 import AlgopyVerif.Proofs.Prefix
 import AlgopyVerif.Proofs.SpecialFns
+import AlgopyVerif.Proofs.LinalgPrefix
+import AlgopyVerif.Proofs.FactorPrefix
 /-!
 # C12 — low-order coefficients do not depend on the truncation degree
 
@@ -18,7 +20,10 @@ The two fold-based kernels, `slowGenericS` (`_eval_slow_generic`: gammaln, psi, 
 and `dawsnS` (`_dawsn` through the generic ODE solver), are proved over ℝ, for every list of
 derivative leaves resp. every leaf value, as a corollary of the analytic layer of C01: the output is
 the jet of a function that does not depend on `D` (`slow_generic_prefix`, `dawsn_prefix`).
-Not proved: these two over other fields; matrix kernels.
+The matrix kernels `dot`, `inv`, `solve` over any ring (`dot_matrix_prefix`, `inv_matrix_prefix`,
+`solve_matrix_prefix`).  Factorizations (`qr_prefix`, `cholesky_prefix`, `lu_prefix`, `eigh_prefix`): two runs whose inputs agree up to
+order `m`, with the same zeroth-order leaves, both obeying the order-`d` step equations (the hypotheses tied to
+the code in C08), agree up to order `m`.  Not proved: the two fold-based kernels over other fields; svd, eig.
 -/
 namespace AV.C12
 variable {K : Type} [Field K]
@@ -138,6 +143,44 @@ theorem slow_generic_prefix (derivs x : List ℝ) (m : Nat) (hm : m ≤ x.length
 theorem dawsn_prefix (v0 : ℝ) (x : List ℝ) (m : Nat) (hm : m ≤ x.length) (d : Nat) (hd : d < m) :
     co (dawsnS v0 (x.take m)) d = co (dawsnS v0 x) d :=
   dawsnS_take_co v0 x m hm d hd
+
+/-! ### matrix kernels over any (non-commutative) ring -/
+theorem dot_matrix_prefix {R : Type} [Ring R] (x y : List R) (m : Nat) (h : m ≤ x.length) :
+    (dotM x y).take m = dotM (x.take m) (y.take m) := dotM_take x y m h
+
+theorem inv_matrix_prefix {R : Type} [Ring R] (x : List R) (y0 : R) (m : Nat) (h : m ≤ x.length) :
+    (invM x y0).take m = invM (x.take m) y0 := invM_take x y0 m h
+
+theorem solve_matrix_prefix {R : Type} [Ring R] (a : List R) (a0inv : R) (b : List R) (m : Nat) (h : m ≤ b.length) :
+    (solveM a a0inv b).take m = solveM (a.take m) a0inv (b.take m) := solveM_take a a0inv b m h
+
+/-! ### factorizations: the steps determine order `d` from input orders `≤ d` -/
+section factor
+open AV.Factor
+variable {n : Type} [Fintype n] [DecidableEq n]
+
+theorem qr_prefix (lt : n → n → Prop) [DecidableRel lt] (A A' Q Q' R R' : ℕ → Matrix n n K) (Rinv : Matrix n n K)
+    (m : ℕ) (hA : ∀ d, d ≤ m → A d = A' d) (hQ0 : Q 0 = Q' 0) (hR0 : R 0 = R' 0)
+    (st : ∀ d, 1 ≤ d → d ≤ m → QRStep lt A Q R Rinv d) (st' : ∀ d, 1 ≤ d → d ≤ m → QRStep lt A' Q' R' Rinv d) :
+    ∀ d, d ≤ m → Q d = Q' d ∧ R d = R' d := qr_determined lt A A' Q Q' R R' Rinv m hA hQ0 hR0 st st'
+
+theorem cholesky_prefix (lt : n → n → Prop) [DecidableRel lt] (A A' L L' : ℕ → Matrix n n K) (L0inv : Matrix n n K)
+    (m : ℕ) (hA : ∀ d, d ≤ m → A d = A' d) (hL0 : L 0 = L' 0)
+    (st : ∀ d, 1 ≤ d → d ≤ m → CholStep lt A L L0inv d) (st' : ∀ d, 1 ≤ d → d ≤ m → CholStep lt A' L' L0inv d) :
+    ∀ d, d ≤ m → L d = L' d := chol_determined lt A A' L L' L0inv m hA hL0 st st'
+
+theorem lu_prefix (lt : n → n → Prop) [DecidableRel lt] (B B' L L' U U' : ℕ → Matrix n n K)
+    (L0inv U0inv : Matrix n n K) (m : ℕ) (hB : ∀ d, d ≤ m → B d = B' d) (hL0 : L 0 = L' 0) (hU0 : U 0 = U' 0)
+    (st : ∀ d, 1 ≤ d → d ≤ m → LUStep lt B L U L0inv U0inv d)
+    (st' : ∀ d, 1 ≤ d → d ≤ m → LUStep lt B' L' U' L0inv U0inv d) :
+    ∀ d, d ≤ m → L d = L' d ∧ U d = U' d := lu_determined lt B B' L L' U U' L0inv U0inv m hB hL0 hU0 st st'
+
+theorem eigh_prefix (same : n → n → Prop) [DecidableRel same] (A A' Q Q' L L' : ℕ → Matrix n n K) (l : n → K)
+    (Hm : Matrix n n K) (m : ℕ) (hA : ∀ d, d ≤ m → A d = A' d) (hQ0 : Q 0 = Q' 0) (hL0 : L 0 = L' 0)
+    (st : ∀ d, 1 ≤ d → d ≤ m → Eigh1Step same A Q L l Hm d)
+    (st' : ∀ d, 1 ≤ d → d ≤ m → Eigh1Step same A' Q' L' l Hm d) :
+    ∀ d, d ≤ m → Q d = Q' d ∧ L d = L' d := eigh1_determined same A A' Q Q' L L' l Hm m hA hQ0 hL0 st st'
+end factor
 
 /-- `D = 1` reproduces the plain function value (the leaf) -/
 theorem exp_D1 (y0 x0 : K) : expS y0 [x0] = [y0] := by
